@@ -23,6 +23,12 @@ def pairs(formula):
 
 
 def lines_for(gen, item, z, c):
+    if isinstance(item[0], str) and "=" in item[0]:
+        # explicit pairs (compositions with fixed isotopes): the relation between the charged and the neutral pattern of one
+        # call holds whatever the generator makes of a label
+        if gen == "conv":
+            return f"conv\t{item[0]}\t{z}\t{fr(c)}\t{fr(item[1])}\tvec"
+        return f"brain\t{item[0]}\t{'guess' if item[1] == 0 else 'n:%d' % item[1]}\t{z}\t{fr(c)}\tvec"
     if gen == "poisson":
         return f"poisson\t{fr(item[0])}\t{item[1]}\t{z}"
     if gen == "conv":
@@ -73,14 +79,16 @@ def run(r: Run):
                 [(Fraction(40_000_000), 100), (Fraction(180_000), 200), (Fraction(10 ** 9), 60), (Fraction(2_260_000), 300)], [CARRIERS[0]])]
     # fine-structure expansions are exponential: only compositions with at most ~1e5 arrangements
     small = ["H2O", "C2H6S1", "Br2", "Cl2C1", "Fe2O3", "K3", "Si2Mg1O4", "Ca1Cl2"]
-    streams.append(("conv", [(f, Fraction(t)) for f in small for t in (Fraction(0), Fraction(1, 10 ** 6))], CARRIERS))
+    streams.append(("conv", [(f, Fraction(t)) for f in small for t in (Fraction(0), Fraction(1, 10 ** 6))] +
+                    [("C:13=2,C:0=4,H:0=6", Fraction(1, 10 ** 6)), ("C:13=1,O:18=1", Fraction(0)), ("Cl:37=2,C:0=1", Fraction(0))], CARRIERS))
     # plus compositions whose lightest variants carry < 1e-10 of the requested range (kept as leading entries
     # by the cut loop) and a 184 kDa polymer at the default and the maximal request
     streams.append(("brain", [(f, n) for f in FORMULAS for n in (0, 2, 5, 17)] +
                     [("Mg100", 100), ("Mg150", 120), ("Si400", 120), ("C6144H12288O6144", 0), ("C6144H12288O6144", 300),
                      ("C2000H4000", 0),
                      # compositions of monoisotopic elements only (a single variant; the variant bound is 0)
-                     ("Na1", 0), ("Cs2I1", 3), ("P1F6", 0), ("Au4", 2), ("Na3I2", 0)], CARRIERS))
+                     ("Na1", 0), ("Cs2I1", 3), ("P1F6", 0), ("Au4", 2), ("Na3I2", 0),
+                     ("C:13=2,C:0=4,H:0=12,O:0=6", 6), ("C:13=1,O:18=1", 0), ("H:2=4,C:0=2", 3)], CARRIERS))
     for gen, items, carriers in streams:
         mode = {"poisson": "poisson", "conv": "conv", "brain": "brain"}[gen]
         zs = list(range(-8, 9)) if thorough or gen == "poisson" else [-8, -3, -1, 0, 1, 2, 5]
